@@ -202,6 +202,8 @@ FIXED_PROGRAMS = [
     [("st", "p", 0, 4, "r0"), ("ld", "x0", "p", 1, 2)],
     [("ld", "x0", "p", 0, 4), ("st", "q", 0, 4, "r0"), ("ld", "x1", "p", 0, 4)],
     [("st", "p", 4, 4, "r0"), ("st", "p", 0, 4, "r1"), ("ld", "x0", "q", 3, 2)],
+    # a narrow store, then a wider load through the same pointer (the rest comes from an earlier, possibly aliasing store)
+    [("st", "p", 0, 4, "r0"), ("st", "q", 0, 1, "r1"), ("ld", "x0", "q", 0, 4)],
     # memory-to-memory moves: the stored value is an earlier load
     [("ld", "x0", "p", 0, 4), ("st", "p", 0, 4, "r0"), ("st", "q", 0, 4, "x0"), ("st", "p", 4, 1, "r1"), ("ld", "x1", "q", 0, 4)],
     [("st", "p", 0, 4, "r0"), ("ld", "x0", "p", 1, 2), ("st", "q", 0, 2, "x0"), ("ld", "x1", "q", 0, 2)],
